@@ -807,7 +807,16 @@ func ringScenario(N int, moduli []uint64, cls string) engine.Scenario {
 		}
 		evals := 0
 		for level := 0; level < len(moduli); level++ {
+			// level views are taken directly from the full ring and, on alternating levels, from another view
+			// (lowered first, then brought back): a view of a view must be the ring at the requested level
 			r := rMax.AtLevel(level)
+			if level%2 == 1 || level == len(moduli)-1 {
+				r = rMax.AtLevel(0).AtLevel(level)
+			}
+			if r.Level() != level || len(r.ModuliChain()[:r.Level()+1]) != level+1 {
+				c.Fail("C01/ring/AtLevel/view-of-a-view", "AtLevel(0).AtLevel(%d) is at level %d", level, r.Level())
+				return
+			}
 			qs := moduli[:level+1]
 			mk := func(seed uint64) ring.Poly {
 				p := rMax.NewPoly()
@@ -1205,6 +1214,14 @@ func ringqpScenario(N int, qs, ps []uint64, cls string) engine.Scenario {
 				var r ringqp.Ring
 				if lp >= 0 {
 					r = R.AtLevel(lq, lp)
+					// on alternating shapes through a lowered view first, then raised (a view of a view)
+					if (lq+lp)%2 == 1 || (lq == len(qs)-1 && lp == len(ps)-1) {
+						r = R.AtLevel(0, 0).AtLevel(lq, lp)
+					}
+					if r.LevelQ() != lq || r.LevelP() != lp {
+						c.Fail("C01/ringqp/AtLevel/view-of-a-view", "AtLevel(0,0).AtLevel(%d,%d) is at levels (%d,%d)", lq, lp, r.LevelQ(), r.LevelP())
+						return
+					}
 				} else {
 					r = ringqp.Ring{RingQ: rq.AtLevel(lq)}
 				}
